@@ -224,10 +224,24 @@ def line_names(diffs: list[str]) -> str:
 # ---------------------------------------------------------------------------------------------
 
 
-def fixed_project(name: str):
+def fixed_project(name: str, stage: int = 0):
     """Hand-written projects that every run includes (all their kill points are enumerated)."""
     from simdirector import A, Project, plan_file
 
+    if name == "three-levels":
+        # `./sub.py` (an ordinary step with the input cfg.txt) creates `./subsub.py`, which creates `leaf`; all
+        # static files are declared by the boot plan.  Stage 1 (the interrupted rebuild) edits cfg.txt and the
+        # input of the leaf: a kill while `./sub.py` runs again, after it has defined `./subsub.py` again, leaves
+        # the grandchild attached below a RUNNING step.
+        subsub = [A.step("leaf", inp=["inp.txt"], out=["leaf.txt"])]
+        sub = [A.read("cfg.txt"), A.step("./subsub.py", inp=["subsub.py"]), A.nop(), A.nop()]
+        return Project(
+            scripts={"./plan.py": [A.static("sub.py", "subsub.py", "inp.txt", "cfg.txt"),
+                                   A.step("./sub.py", inp=["sub.py", "cfg.txt"])],
+                     "./sub.py": sub, "./subsub.py": subsub,
+                     "leaf": [A.read("inp.txt"), A.nop(), A.write("leaf.txt")]},
+            files={"inp.txt": ["one\n", "two\n"][stage], "cfg.txt": ["cfg 0\n", "cfg 1\n"][stage],
+                   "sub.py": plan_file(sub), "subsub.py": plan_file(subsub)})
     if name == "deferred-creator":
         # `sub` defines `slow`, then amends gen.txt, which is not built yet: `sub` is deferred while `slow`
         # runs; when gen.txt is there `sub` runs again, detaches the RUNNING `slow` and recycles it.
@@ -255,7 +269,7 @@ class _Case:
             self.model0 = self.model1 = projgen.Model()
             self.mutations = ["fixed:" + spec["fixed"]]
             self.project0 = fixed_project(spec["fixed"])
-            self.project1 = fixed_project(spec["fixed"])
+            self.project1 = fixed_project(spec["fixed"], 1 if spec["nmut"] else 0)
         else:
             self.model0, self.model1, self.mutations = build_models(spec)
             self.project0 = simcases.explicit_project(self.model0, spec.get("defer_sub", False))
@@ -683,6 +697,10 @@ async def search(ctx):
     for j, (njob, sched) in enumerate(((3, "fifo"), (3, "random"), (2, "lifo"))):
         fixed.append({"id": [ctx.seed, -1 - j], "fixed": "deferred-creator", "model_seed": 1000 * ctx.seed + j,
                       "nstep": 3, "njob": njob, "sched": sched, "restart_sched": "random" if j else "fifo", "nmut": 0,
+                      "mut_seed": 0, "step_points": True, "watch": False})
+    for j, (njob, sched) in enumerate(((1, "fifo"), (2, "random"))):
+        fixed.append({"id": [ctx.seed, -11 - j], "fixed": "three-levels", "model_seed": 1000 * ctx.seed + 50 + j,
+                      "nstep": 3, "njob": njob, "sched": sched, "restart_sched": "fifo", "nmut": 1,
                       "mut_seed": 0, "step_points": True, "watch": False})
     specs = fixed + specs
     soft = 45 if ctx.tier == "quick" else 900
